@@ -497,6 +497,24 @@ def run(ctx):
                                                                    "; ".join(sorted(set(editor_problems))[:3] + ([enter_pr] if enter_pr else []))
                                                                    or "%d (code, modifiers) events interpreted in the editor" % len(editor_cache)),
                "A4 of InputState::handle per key event on an unknown editor state")
+    # ---- the event loop's wall-clock arithmetic ------------------------------------------------------------------------
+    # `Duration - Duration` (and the other operator forms on Duration / Instant) panic on under- or overflow.  Their operands in
+    # the TUI are wall-clock readings, for which no static bound exists - in particular `elapsed()` grows between a comparison
+    # and a later subtraction - so the panicking forms may not be used there at all (checked or saturating forms only).
+    import re as _re
+    timeops = []
+    for path_, b_ in sorted(p.bodies.items()):
+        if not path_.startswith("B::tui::"):
+            continue
+        for bb_, t_ in mirutil.calls_in(b_):
+            d_ = str(t_["f"].get("res") or t_["f"].get("def") or "")
+            da_ = str(t_["f"].get("defargs") or "")
+            if _re.search(r"<(core::time::Duration|std::time::Instant|std::time::SystemTime) as core::ops::arith::(Sub|Add|Mul|Div|SubAssign|AddAssign|MulAssign|DivAssign)", d_ + " " + da_):
+                timeops.append("%s:%s %s" % (b_.file, t_.get("ln"), (da_ or d_).split(" as core::ops::arith::")[-1][:40]))
+    chk.ob("event-loop/no-panicking-time-arithmetic", not timeops,
+           "the interactive session computes with wall-clock durations only through checked or saturating operations",
+           "emulator-2a/src/tui", "; ".join(timeops[:4]) or "no operator arithmetic on Duration/Instant in the TUI module",
+           "who-may-call rule over the resolved callees of every function of the TUI module")
     callers = {b_ for b_, c_ in mirutil.call_graph(p).items() if IS + "::handle" in c_}
     okc = callers <= {TUI + "::handle_event", TUI + "::handle_input"} | {x for x in callers if "::tests::" in x}
     chk.ob("editor/handle-callers", okc, "InputState::handle is called only from the event dispatch and the line submission",
